@@ -16,7 +16,10 @@ PROPS = [f"C{n:02d}" for n in (1, 2, 3, 4, 5, 6, 7, 8, 9, 10, 11, 12, 13, 14, 15
 def sh(cmd, cwd=None, env=None, timeout=900):
     e = dict(os.environ)
     e.update(env or {})
-    r = subprocess.run(cmd, shell=True, cwd=cwd, env=e, capture_output=True, text=True, timeout=timeout)
+    try:
+        r = subprocess.run(cmd, shell=True, cwd=cwd, env=e, capture_output=True, text=True, timeout=timeout)
+    except subprocess.TimeoutExpired:
+        return 124, f"TIMEOUT after {timeout}s: {cmd}"
     return r.returncode, (r.stdout + r.stderr)
 
 
@@ -52,6 +55,8 @@ def verify(seed_dir: str, run_suite: bool = True):
             for p, rc in ex2.map(one, PROPS):
                 if rc == 1:
                     fired.append(p)
+                elif rc == 124:
+                    errs.append(p + ":TIMEOUT")
                 elif rc != 0:
                     errs.append(p)
         res["fired"], res["analysis_errors"] = fired, errs
